@@ -199,6 +199,9 @@ def r4_repr_fallback(ctx):
             n_repr += 1
         elif isinstance(p, ast.Call) and is_name(p.func, 'type') and ctx.res.resolve_call(f, p) == ('builtin', 'type'):
             kind = 'type() for a message'
+        elif isinstance(p, ast.Call) and p.args and p.args[0] is u and _repr_helper(ctx, f, p) is not None:
+            kind = 'repr() through the helper %s' % _repr_helper(ctx, f, p).name
+            n_repr += 1
         rep.ob('C02.R4', ctx.loc(f, u), ctx.src(p), kind is not None,
                'value used only as %s' % kind if kind else
                'the evaluated value is inspected / used outside repr() and the NOT_EVALED identity test: which wants are accepted then depends on the value itself '
@@ -213,15 +216,40 @@ def r4_repr_fallback(ctx):
             r = ctx.res.resolve_call(f, c)
             if r[0] == 'repo' and r[1][0].qualname == 'xdoctest.checker.check_output' and c.args:
                 a0 = c.args[0]
-                if _is_repr_of(a0, 'got_eval'):
+                def is_repr(e):
+                    return _is_repr_of(e, 'got_eval') or (isinstance(e, ast.Call) and len(e.args) == 1 and is_name(e.args[0], 'got_eval') and _repr_helper(ctx, f, e) is not None)
+                if is_repr(a0):
                     reaches = True
                 elif isinstance(a0, ast.Name):
                     for d in rd.at(n, a0.id):
-                        if isinstance(d.value, ast.AST) and _is_repr_of(d.value, 'got_eval'):
+                        if isinstance(d.value, ast.AST) and is_repr(d.value):
                             reaches = True
     rep.ob('C02.R4', ctx.loc(f, f.node), 'repr(got_eval) -> check_output(got, ...)', reaches and n_repr >= 1,
            'repr of the evaluated value reaches the comparison' if reaches else
            'no repr(got_eval) reaches check_output: the value fallback is gone', anchor=q)
+
+
+def _repr_helper(ctx, f, call):
+    """the repository function `call` resolves to, if it is a thin wrapper returning repr(<its only parameter>) (inlining bound 1)"""
+    r = ctx.res.resolve_call(f, call)
+    if r[0] != 'repo' or len(r[1]) != 1:
+        return None
+    h = r[1][0]
+    a = h.node.args.args
+    if len(a) != 1 or h.cls is not None:
+        return None
+    p = a[0].arg
+    rets = [x for x in ast.walk(h.node) if isinstance(x, ast.Return) and x.value is not None]
+    if not rets or not all(_is_repr_of(x.value, p) for x in rets):
+        return None
+    for u in ast.walk(h.node):
+        if isinstance(u, ast.Name) and u.id == p and isinstance(u.ctx, ast.Load):
+            par = u._parent
+            if not (isinstance(par, ast.Call) and isinstance(par.func, ast.Name) and par.func.id in ('repr', 'type')):
+                return None
+        if isinstance(u, ast.Name) and u.id == p and isinstance(u.ctx, ast.Store):
+            return None
+    return h
 
 
 def _is_repr_of(e, name):
